@@ -1,3 +1,5 @@
 import ZCV.Props.C01
 open ZCV.Props.C01
 #print axioms C01_isAllowedName_spec
+#print axioms C01_key_routing
+#print axioms C01_unknown_key_rejected
